@@ -105,6 +105,10 @@ def PMnvol_MEEM(
         0.85 + (1.15 - 0.85) * lin_vary_alt,
         np.where(alt_rate == 0, 0.95, 0.12),
     )
+    # The linear altitude scaling is unbounded below 3000 m; never let the
+    # coefficient drop below the smallest value used for any phase, so that
+    # the combustor pressure stays above the inlet pressure.
+    pressure_coef = np.maximum(pressure_coef, 0.12)
 
     # convert ambient -> *total* T/P first
     Tt_amb = Tamb_cruise * (1 + (kappa - 1) / 2 * machFlight**2)
